@@ -9,7 +9,8 @@ RULE = ("multi-line template sets (multi-byte characters, CRLF, tabs) with EXACT
         "nesting position (inside if / each / with bodies, else branches, else-chain links, blocks of user helpers, inline partial bodies, "
         "partial-block and fallback bodies, registered partials called from elsewhere) in a random template of the set; failure kinds: missing variable (strict), unknown "
         "helper, unknown partial, unknown decorator, helper argument error (lookup without arguments, each without argument, "
-        "invalid logging level); the generator records the template name and the 1-based line/column of the tag's '{{' "
+        "invalid logging level), and tags of the block kinds failing themselves (unknown block decorator, inline without a name, a failing subexpression "
+        "in the arguments of a partial / partial block / block helper / decorator); the generator records the template name and the 1-based line/column of the tag's '{{' "
         "(for a failing else-chain link: the chain's opening tag) – that record is the oracle; plus compile errors (name and "
         "position inside the source); non-trivial = every case; distinct by (kind, position)")
 DEFINITE_FLOOR = 0.95
@@ -18,7 +19,13 @@ FAILS = [("{{nope}}", "MissingVariable", True), ("{{nohelper 1}}", "HelperNotFou
          ("{{*nodeco}}", "DecoratorNotFound", False), ("{{lookup}}", "ParamNotFoundForIndex", False), ("{{#each}}x{{/each}}", "ParamNotFoundForIndex", False),
          ("{{log 1 level=\"loud\"}}", "InvalidLoggingLevel", False), ("{{#nohelper 1}}x{{/nohelper}}", "HelperNotFound", False),
          ("{{@root.o.s.x}}", "MissingVariable", True), ("{{@root.arr.foo}}", "InvalidJsonIndex", False), ("{{#with nope}}x{{/with}}", "MissingVariable", True),
-         ("{{eq 1}}", "ParamNotFoundForName", False), ("{{len nope}}", "ParamNotFoundForName", True)]
+         ("{{eq 1}}", "ParamNotFoundForName", False), ("{{len nope}}", "ParamNotFoundForName", True),
+         # tags of the block kinds that fail THEMSELVES (not something in their body): the position is the opening tag
+         ("{{#*nodeco}}x\n{{/nodeco}}", "DecoratorNotFound", False), ("{{#*inline}}x\n{{/inline}}", "ParamNotFoundForIndex", False),
+         ("{{#> okp (nohelper 1)}}b\n{{/okp}}", "HelperNotFound", False), ("{{> okp (nohelper 1)}}", "HelperNotFound", False),
+         ("{{> (nohelper 1)}}", "HelperNotFound", False), ("{{#if (nohelper 1)}}x\n{{else}}y{{/if}}", "HelperNotFound", False),
+         ("{{#each (nohelper 1)}}x\n{{/each}}", "HelperNotFound", False), ("{{*sethelper (nohelper 1)}}", "HelperNotFound", False),
+         ("{{#> nosuch x=(nohelper 1)}}fb\n{{/nosuch}}", "HelperNotFound", False), ("{{#*inline (nohelper 1)}}x\n{{/inline}}", "HelperNotFound", False)]
 FILL = ["text ", "é→ ", "{{@root.s}}", "\n", "\r\n", "\t", "  ", "{{! c }}", "x", "{{{@root.s}}} ", "{{@root.o.s}}", "😀",
         " {{~@root.s}}", "{{@root.s~}} ", "  {{~@root.o.s~}}  ", "\n  {{~#if @root.t}}y{{/if}}", "{{#if @root.t~}} y {{~/if}}", " {{~> okp}}",
         "{{{{raw}}}} r {{{{/raw}}}}", "{{#*inline \"il\"}}i{{/inline}}", "{{*sethelper \"lh\" \"L\"}}", "\\{{esc}}", "{{#> okp}}b{{/okp}}"]
